@@ -208,9 +208,13 @@ def run_worker(ctx, family, infile, args, shards=None, prefix=None, timeout=1800
     outs = [p.replace('_in.', '_obs.') for p in ins]
     binary = binary or ctx.worker
 
+    tmpd = ctx.path('tmp')
+    os.makedirs(tmpd, exist_ok=True)
+
     def one(i):
         cmd = [binary, family, '-in', ins[i], '-out', outs[i]] + args
-        rc, o = run(cmd, timeout=timeout, check=False, env=dict(os.environ, VERIF_SEED=str(ctx.seed)))
+        # private working directories of the children live (and die) with the scratch directory
+        rc, o = run(cmd, timeout=timeout, check=False, env=dict(os.environ, VERIF_SEED=str(ctx.seed), TMPDIR=tmpd))
         if rc != 0:
             raise Broken('worker %s failed (rc=%d): %s' % (family, rc, o[-2000:]))
         return outs[i]
